@@ -699,9 +699,17 @@ def result_kind_of_ret(fn):
                 elif rv["k"] == "use":
                     x = rv["x"]
                     xd = def_sites(fn, x["l"]) if x.get("k") in ("copy", "move") and not x["p"] else []
-                    chain_move = len(xd) == 1 and xd[0][1] == "assign" and xd[0][2]["rv"]["k"] == "use" and \
-                        xd[0][2]["rv"]["x"].get("k") in ("copy", "move") and not xd[0][2]["rv"]["x"]["p"] and \
-                        len(def_sites(fn, xd[0][2]["rv"]["x"]["l"])) > 1
+                    # a chain of whole-local moves (`let r = ..; helper(r)` with the helper folded in) that ends in
+                    # a local with several definitions
+                    chain_move = False
+                    cur_, hops_ = xd, 0
+                    while len(cur_) == 1 and cur_[0][1] == "assign" and cur_[0][2]["rv"]["k"] == "use" and hops_ < 8 and \
+                            cur_[0][2]["rv"]["x"].get("k") in ("copy", "move") and not cur_[0][2]["rv"]["x"]["p"]:
+                        nxt_ = def_sites(fn, cur_[0][2]["rv"]["x"]["l"])
+                        if len(nxt_) > 1:
+                            chain_move = True
+                            break
+                        cur_, hops_ = nxt_, hops_ + 1
                     if x.get("k") in ("copy", "move") and not x["p"] and x["l"] not in seen and x["l"] > fn.argc and len(seen) < 10 \
                             and (len(xd) > 1 or chain_move):
                         visit(x["l"], seen | {x["l"]})
